@@ -21,6 +21,8 @@ func init() { families["ids"] = runIDs }
 // buildIDAcc builds one accessory from <eid>:<svc>[+h][+p][~k|~!][^k],...
 func buildIDAcc(ai int, spec string) (*accessory.Accessory, string) {
 	p := strings.SplitN(spec, ":", 2)
+	early := strings.HasPrefix(p[0], "@") // the application encodes the accessory (a debug dump) before it is added anywhere
+	p[0] = strings.TrimPrefix(p[0], "@")
 	eid, _ := strconv.ParseUint(p[0], 10, 64)
 	a := accessory.New(accessory.Info{Name: fmt.Sprintf("acc%d", ai), ID: eid}, accessory.TypeOther)
 	var svcs []*service.Service
@@ -84,6 +86,12 @@ func buildIDAcc(ai int, spec string) (*accessory.Accessory, string) {
 			svcs[l[0]].AddCharacteristic(c.Characteristic)
 		}
 	}
+	if early {
+		json.Marshal(a)
+		for _, sv := range a.Services {
+			json.Marshal(sv)
+		}
+	}
 	return a, ""
 }
 
@@ -100,8 +108,8 @@ func runIDs(id string, toks []string) (res string) {
 	if toks[0] == "idst" {
 		return runIDsTransport(toks[1], toks[2])
 	}
-	if toks[0] == "served" {
-		return runServed(toks[1])
+	if toks[0] == "served" || toks[0] == "servedpad" {
+		return runServed(toks[1], toks[0] == "servedpad")
 	}
 	cont := accessory.NewContainer()
 	var out []string
@@ -307,7 +315,7 @@ func (w *chunkHook) Write(p []byte) (int, error) {
 	return n, nil
 }
 
-func runServed(spec string) (res string) {
+func runServed(spec string, pad bool) (res string) {
 	defer func() {
 		if r := recover(); r != nil {
 			res = fmt.Sprint("panic ", r)
@@ -324,6 +332,19 @@ func runServed(spec string) (res string) {
 	wantA, err := haphttp.JSONEncode(cont)
 	if err != nil {
 		return "served=unencodable"
+	}
+	if pad && len(cont.Accessories) > 0 {
+		// the name of the first accessory is lengthened until the encoded database is an exact multiple of the chunk size
+		nm := cont.Accessories[0].Info.Name
+		for k := 0; k < 3 && wantA.Len()%2048 != 0; k++ {
+			nm.SetValue(nm.GetValue() + strings.Repeat("x", 2048-wantA.Len()%2048))
+			if wantA, err = haphttp.JSONEncode(cont); err != nil {
+				return "served=unencodable"
+			}
+		}
+		if wantA.Len()%2048 != 0 {
+			return "served=could-not-pad"
+		}
 	}
 	expA := append([]byte(nil), wantA.Bytes()...)
 	// the other answer: longer than what A has been sent so far
